@@ -62,6 +62,11 @@
 #include <opm/input/eclipse/Schedule/Well/NameOrder.hpp>
 #include <opm/input/eclipse/Units/UnitSystem.hpp>
 #include <opm/input/eclipse/Parser/ParserKeywords/W.hpp>
+#include <opm/input/eclipse/Parser/ParserKeywords/F.hpp>
+#include <opm/input/eclipse/Schedule/UDQ/UDQDefine.hpp>
+#include <opm/input/eclipse/Schedule/UDQ/UDQInput.hpp>
+#include <opm/input/eclipse/Schedule/UDQ/UDQParams.hpp>
+#include <opm/input/eclipse/Schedule/Well/WList.hpp>
 #include <opm/input/eclipse/Python/Python.hpp>
 #include <opm/common/utility/TimeService.hpp>
 #include <opm/common/OpmLog/OpmLog.hpp>
@@ -69,6 +74,7 @@
 #include <opm/common/OpmLog/LogUtil.hpp>
 
 #include <algorithm>
+#include <chrono>
 #include <filesystem>
 #include <iostream>
 #include <memory>
@@ -100,11 +106,25 @@ std::string hv(const std::string& s) { return s == "*" ? "*" : vh::hexF64(std::s
 bool isValueField(const std::string& kw, size_t idx, size_t nfields) {
     if (kw == "WCONPROD") return idx >= 3;
     if (kw == "WCONINJE") return idx >= 4;
+    if (kw == "WCONHIST") return idx >= 3;
+    if (kw == "WCONINJH") return idx == 3 || idx == 4;
     if (kw == "WELTARG") return idx == 2;
     if (kw == "WEFAC" || kw == "GEFAC") return idx == 1;
     if (kw == "GCONPROD") return idx >= 2 && idx <= 5;
+    if (kw == "GCONINJE") return idx >= 3 && idx <= 6;
+    if (kw == "WECON") return idx == 1 || idx == 2;
+    if (kw == "WTEST") return idx == 1 || idx == 4;
+    if (kw == "WPIMULT") return idx == 1;
+    if (kw == "NEXTSTEP") return idx == 0;
     (void) nfields;
     return false;
+}
+
+std::string hexOfString(const std::string& t) {
+    if (t.empty()) return "-";
+    std::string o; char b[4];
+    for (unsigned char c : t) { std::snprintf(b, sizeof b, "%02x", c); o += b; }
+    return o;
 }
 
 // deck text of one keyword
@@ -127,6 +147,8 @@ std::string deckText(const KwIR& k) {
         o << " /\n";
         return o.str();
     }
+    if (k.name == "NEXTSTEP") { o << "NEXTSTEP\n " << k.recs[0][0] << " " << q(k.recs[0][1]) << " /\n"; return o.str(); }
+    if (k.name == "WHISTCTL") { o << "WHISTCTL\n " << q(k.recs[0][0]) << " /\n"; return o.str(); }
     o << k.name << "\n";
     for (auto& r : k.recs) {
         o << " ";
@@ -134,7 +156,7 @@ std::string deckText(const KwIR& k) {
             o << r[2] << " " << q(MON[std::atoi(r[1].c_str())]) << " " << r[0];
             if (r.size() > 3) { char b[32]; std::snprintf(b, sizeof b, " %02d:%02d:%02d", std::atoi(r[3].c_str()), std::atoi(r[4].c_str()), std::atoi(r[5].c_str())); o << b; }
         } else if (k.name == "WELSPECS") {
-            o << q(r[0]) << " " << q(r[1]) << " " << r[2] << " " << r[3] << " 1* 'OIL'";
+            o << q(r[0]) << " " << q(r[1]) << " " << dv(r[2]) << " " << dv(r[3]) << " 1* 'OIL'";
         } else if (k.name == "COMPDAT") {
             o << q(r[0]) << " " << r[1] << " " << r[2] << " " << r[3] << " " << r[4] << " " << q(r[5]) << " 2* 0.2";
         } else if (k.name == "WCONPROD") {
@@ -154,6 +176,26 @@ std::string deckText(const KwIR& k) {
             o << q(r[0]) << " " << q(r[1]);
         } else if (k.name == "GCONPROD") {
             o << q(r[0]) << " " << q(r[1]) << " " << dv(r[2]) << " " << dv(r[3]) << " " << dv(r[4]) << " " << dv(r[5]) << " " << q(r[6]);
+        } else if (k.name == "GCONINJE") {
+            o << q(r[0]) << " " << q(r[1]) << " " << q(r[2]) << " " << dv(r[3]) << " " << dv(r[4]) << " " << dv(r[5]) << " " << dv(r[6]) << " " << q(r[7]);
+        } else if (k.name == "WCONHIST") {
+            o << q(r[0]) << " " << q(r[1]) << " " << (r[2] == "*" ? "1*" : q(r[2])) << " " << r[3] << " " << r[4] << " " << r[5] << " 3* " << dv(r[6]);
+        } else if (k.name == "WCONINJH") {
+            o << q(r[0]) << " " << q(r[1]) << " " << q(r[2]) << " " << dv(r[3]) << " " << dv(r[4]) << " 6* " << q(r[5]);
+        } else if (k.name == "WECON") {
+            o << q(r[0]) << " " << r[1] << " 1* " << r[2] << " 2* " << q(r[3]);
+        } else if (k.name == "WTEST") {
+            o << q(r[0]) << " " << r[1] << " " << (r[2] == "-" ? "1*" : r[2]) << " " << r[3] << " " << r[4];
+        } else if (k.name == "WLIST") {
+            o << q(r[0]) << " " << q(r[1]);
+            for (size_t i = 2; i < r.size(); ++i) o << " " << q(r[i]);
+        } else if (k.name == "COMPLUMP") {
+            o << q(r[0]) << " " << r[1] << " " << r[2] << " " << r[3] << " " << r[4] << " " << r[5];
+        } else if (k.name == "WPIMULT") {
+            o << q(r[0]) << " " << r[1];
+            for (size_t i = 2; i < r.size(); ++i) o << " " << dv(r[i]);
+        } else if (k.name == "UDQ") {
+            o << r[0] << " " << r[1] << " " << r[2];
         }
         o << " /\n";
     }
@@ -170,6 +212,7 @@ std::string encKw(const KwIR& k) {
         if (ri) s += "|";
         const auto& r = k.recs[ri];
         if (k.name == "DATES") { for (size_t i = 0; i < r.size(); ++i) s += (i ? "-" : "") + r[i]; continue; }
+        if (k.name == "UDQ") { s += r[0] + "," + r[1] + "," + hexOfString(r[3]); continue; }
         for (size_t i = 0; i < r.size(); ++i) s += (i ? "," : "") + (isValueField(k.name, i, r.size()) ? hv(r[i]) : r[i]);
     }
     return s;
@@ -234,6 +277,9 @@ struct Gen {
     std::vector<std::string> wells, groups{ "FIELD" };
     std::vector<std::string> actionNames;
     std::map<std::string, std::pair<int, int>> heads;
+    bool anyHeadChanged = false;          // then COMPDAT never defaults I,J (outside the model)
+    std::set<std::string> connected;      // wells a COMPDAT record named explicitly (they very likely have connections)
+    std::vector<std::string> lists;       // well lists created so far
     int y = 2015, m = 1, d = 1;
     std::map<std::string, long>* stats = nullptr;
 
@@ -244,14 +290,17 @@ struct Gen {
     }
     std::string wellPat(bool allowQ = false) {
         if (allowQ && r.coin(1, 2)) return "?";
-        if (!allowQ && r.coin(1, 70)) return r.coin() ? "P9" : "NOPE";       // usually unknown -> input error
+        if (!allowQ && r.coin(1, 140)) return r.coin() ? "P9" : "NOPE";       // usually unknown -> input error
         int c = r.range(0, 9);
         if (c == 0 && has('P')) return "P*";
         if (c == 1 && has('I')) return "I*";
         if (c == 2 && !wells.empty()) return "*";
+        if (c == 3 && rich2 && !lists.empty() && r.coin(2, 3)) return r.coin(1, 8) ? std::string("*L*") : r.pick(lists);
+        if (c == 3 && rich2 && r.coin(1, 40)) return "*L3";
         if (wells.empty()) return "P1";
         return r.pick(wells);
     }
+    bool rich2 = true;      // emit the second-round keyword set
     bool has(char c) const { for (auto& w : wells) if (w[0] == c) return true; return false; }
     std::string prodPat(bool allowQ = false) {
         if (allowQ && r.coin(1, 2)) return "?";
@@ -285,9 +334,12 @@ struct Gen {
             if (!has('P')) name = "P" + std::to_string(r.range(1, 2));
             else if (!has('I')) name = "I" + std::to_string(r.range(1, 2));
             std::string grp = r.coin(1, 90) ? "FIELD" : "G" + std::to_string(r.range(1, 4));
-            // an existing well keeps its head: a changed head is outside the model (WellConnections keeps the old one)
-            if (!heads.count(name)) heads[name] = { r.range(1, 6), r.range(1, 6) };
-            k.recs.push_back({ name, grp, std::to_string(heads[name].first), std::to_string(heads[name].second) });
+            const bool existing = heads.count(name) > 0;
+            if (!existing) heads[name] = { r.range(1, 6), r.range(1, 6) };
+            else if (rich2 && r.coin(1, connected.count(name) ? 4 : 40)) { heads[name] = { r.range(1, 6), r.range(1, 6) }; anyHeadChanged = true; }   // head change (refused while the well has no connections)
+            std::string hi = std::to_string(heads[name].first), hj = std::to_string(heads[name].second);
+            if (existing && rich2 && r.coin(1, 6)) { if (r.coin()) hi = "*"; else hj = "*"; }
+            k.recs.push_back({ name, grp, hi, hj });
             if (std::find(wells.begin(), wells.end(), name) == wells.end()) wells.push_back(name);
             if (std::find(groups.begin(), groups.end(), grp) == groups.end()) groups.push_back(grp);
         }
@@ -298,9 +350,10 @@ struct Gen {
         int n = r.range(1, 3);
         for (int i = 0; i < n; ++i) {
             int k1 = r.range(1, 4), k2 = r.range(k1, 4);
-            bool dflt = r.coin(1, 2) && !allowQ;      // defaulted I,J are rejected inside ACTIONX
+            bool dflt = r.coin(1, 2) && !allowQ && !anyHeadChanged;      // defaulted I,J are rejected inside ACTIONX
             k.recs.push_back({ allowQ ? wellPat(true) : wellPat(), dflt ? "0" : std::to_string(r.range(1, 6)), dflt ? "0" : std::to_string(r.range(1, 6)),
                                std::to_string(k1), std::to_string(k2), r.coin(3, 4) ? "OPEN" : (r.coin(3, 4) ? "SHUT" : "AUTO") });
+            if (!allowQ) connected.insert(k.recs.back()[0]);
         }
         return k;
     }
@@ -308,18 +361,19 @@ struct Gen {
         KwIR k{ "WCONPROD", {}, "" };
         int n = r.range(1, 2);
         for (int i = 0; i < n; ++i) {
-            std::vector<std::string> f = { prodPat(allowQ), status(), "", val(true), val(true), val(true), val(true), val(true), val(true, 300) };
+            std::vector<std::string> f = { (rich2 && !allowQ && r.coin(1, 8)) ? wellPat() : prodPat(allowQ), status(), "", val(true), val(true), val(true), val(true), val(true), val(true, 300) };
             static const char* modes[] = { "ORAT", "WRAT", "GRAT", "LRAT", "RESV" };
             std::vector<std::string> ok = { "BHP", "GRUP" };
             for (int j = 0; j < 5; ++j) if (f[3 + j] != "*") ok.push_back(modes[j]);
             f[2] = r.coin(1, 50) ? modes[r.below(5)] : r.pick(ok);          // sometimes a mode without value -> error
+            if (rich2 && r.coin(1, 10)) f[2] = "*";                          // CMODE defaulted: the old control mode stays
             k.recs.push_back(f);
         }
         return k;
     }
     KwIR wconinje(bool allowQ = false) {
         KwIR k{ "WCONINJE", {}, "" };
-        std::vector<std::string> f = { injPat(allowQ), r.coin(2, 3) ? "WATER" : (r.coin() ? "GAS" : "OIL"), status(), "", val(true), val(true), val(true, 600) };
+        std::vector<std::string> f = { (rich2 && !allowQ && r.coin(1, 8)) ? wellPat() : injPat(allowQ), r.coin(2, 3) ? "WATER" : (r.coin() ? "GAS" : "OIL"), status(), "", val(true), val(true), val(true, 600) };
         std::vector<std::string> ok = { "BHP", "GRUP" };
         if (f[4] != "*") ok.push_back("RATE");
         if (f[5] != "*") ok.push_back("RESV");
@@ -335,6 +389,8 @@ struct Gen {
             else {
                 std::string st = r.coin(1, 2) ? "SHUT" : (r.coin(4, 5) ? "OPEN" : "AUTO");
                 k.recs.push_back({ wellPat(allowQ), st, std::to_string(r.range(0, 3)), std::to_string(r.range(0, 3)), std::to_string(r.range(0, 4)) });
+                if (st == "SHUT" && r.coin(1, 3)) { k.recs.back()[2] = "0"; k.recs.back()[3] = "0"; k.recs.back()[4] = "0"; }   // all connections: end_report shuts the well
+                else if (rich2 && r.coin(1, 3)) { k.recs.back()[2] = "0"; k.recs.back()[3] = "0"; if (r.coin()) k.recs.back()[4] = "0"; k.recs.back().push_back(std::to_string(r.range(0, 3))); k.recs.back().push_back(std::to_string(r.range(0, 4))); }
             }
         }
         return k;
@@ -367,10 +423,103 @@ struct Gen {
         static const std::vector<std::string> modes = { "NONE", "ORAT", "WRAT", "GRAT", "LRAT", "FLD" };
         return KwIR{ "GCONPROD", { { groupPat(), r.pick(modes), val(true), val(true), val(true), val(true), r.coin() ? "NONE" : "RATE" } }, "" };
     }
+    KwIR wconhist() {
+        static const std::vector<std::string> modes = { "ORAT", "WRAT", "GRAT", "LRAT", "RESV", "BHP", "ORAT", "RESV" };
+        KwIR k{ "WCONHIST", {}, "" };
+        std::string cm = r.coin(1, 40) ? std::string(r.coin() ? "*" : "GRUP") : r.pick(modes);
+        k.recs.push_back({ r.coin(1, 6) ? wellPat() : prodPat(), status(), cm, val(false), val(false), val(false), r.coin() ? val(false, 300) : std::string("*") });
+        return k;
+    }
+    KwIR wconinjh() {
+        KwIR k{ "WCONINJH", {}, "" };
+        k.recs.push_back({ r.coin(1, 6) ? wellPat() : injPat(), r.coin(2, 3) ? "WATER" : (r.coin() ? "GAS" : "OIL"), status(), val(true), r.coin() ? val(false, 500) : std::string("*"),
+                           r.coin(2, 3) ? "RATE" : (r.coin(2, 3) ? "BHP" : "RESV") });
+        return k;
+    }
+    KwIR whistctl() {
+        static const std::vector<std::string> modes = { "NONE", "ORAT", "RESV", "LRAT", "BHP", "GRUP", "WRAT" };
+        return KwIR{ "WHISTCTL", { { r.pick(modes) } }, "" };
+    }
+    KwIR wecon(bool allowQ = false) {
+        static const std::vector<std::string> wo = { "NONE", "CON", "WELL", "+CON" };
+        return KwIR{ "WECON", { { r.coin(1, 40) ? std::string("NOPE") : wellPat(allowQ), r.coin(1, 3) ? std::string("0") : val(false, 100), std::string("0") + (r.coin() ? ".5" : ".875"), r.pick(wo) } }, "" };
+    }
+    KwIR wtest(bool allowQ = false) {
+        static const std::vector<std::string> rs = { "P", "PE", "E", "GDC", "-", "P" };
+        return KwIR{ "WTEST", { { wellPat(allowQ), val(false, 30), r.pick(rs), std::to_string(r.range(0, 3)), r.coin() ? std::string("0") : val(false, 5) } }, "" };
+    }
+    KwIR wlist() {
+        static const std::vector<std::string> acts = { "NEW", "NEW", "ADD", "ADD", "DEL", "MOV" };
+        KwIR k{ "WLIST", {}, "" };
+        int n = r.range(1, 2);
+        for (int i = 0; i < n; ++i) {
+            std::string name = "*L" + std::to_string(r.range(1, 2));
+            std::string act = r.coin(1, 60) ? std::string("XXX") : r.pick(acts);
+            const bool exists = std::find(lists.begin(), lists.end(), name) != lists.end();
+            if (!exists && act != "NEW" && r.coin(9, 10)) act = "NEW";
+            if (r.coin(1, 80)) name = "L9";                                   // no leading '*': error
+            std::vector<std::string> f = { name, act };
+            int nw = r.range(0, 3);
+            for (int j = 0; j < nw; ++j) {
+                int c = r.range(0, 11);
+                if (c == 0 && has('P')) f.push_back("P*");
+                else if (c == 1 && !lists.empty()) f.push_back(r.pick(lists));
+                else if (c == 2 && r.coin(1, 6)) f.push_back("NOPE");           // unknown plain name: error
+                else if (c == 3) f.push_back("X*");                            // pattern without match: ignored
+                else if (!wells.empty()) f.push_back(r.pick(wells));
+            }
+            k.recs.push_back(f);
+            if (act == "NEW" && name[0] == '*' && !exists) lists.push_back(name);
+        }
+        return k;
+    }
+    KwIR gconinje() {
+        static const std::vector<std::string> modes = { "NONE", "RATE", "RESV", "REIN", "VREP", "FLD" };
+        return KwIR{ "GCONINJE", { { groupPat(), r.coin(2, 3) ? "WATER" : (r.coin(3, 4) ? "GAS" : "OIL"), r.pick(modes), val(true), val(true), val(true, 2), val(true, 2), r.coin(2, 3) ? "YES" : "NO" } }, "" };
+    }
+    KwIR nextstep() { return KwIR{ "NEXTSTEP", { { val(false, 10), r.coin(1, 3) ? "YES" : "NO" } }, "" }; }
+    // UDQ records: [action, quantity, deck text of the data items, normalised payload the model stores]
+    KwIR udq() {
+        KwIR k{ "UDQ", {}, "" };
+        int n = r.range(1, 3);
+        for (int i = 0; i < n; ++i) {
+            const bool wellVar = r.coin(1, 3);
+            std::string qn = std::string(wellVar ? "WU" : "FU") + std::string(1, "ABC"[r.below(3)]);
+            int c = r.range(0, 9);
+            if (c < 4) k.recs.push_back({ "ASSIGN", qn, std::to_string(r.range(1, 9)) + (r.coin() ? ".5" : ""), "" });
+            else if (c < 8) {
+                static const std::vector<std::string> fe = { "FOPR * 2", "FWPR + FOPR", "( FOPR - 1 ) * 3", "( FOPR + FWPR ) / 2" };
+                static const std::vector<std::string> we = { "WOPR * 2", "WWPR + WOPR", "WOPR 'P1' * 2", "SUM ( WOPR ) + WWPR" };
+                k.recs.push_back({ "DEFINE", qn, wellVar ? r.pick(we) : r.pick(fe), "?" });
+            } else k.recs.push_back({ "UNITS", qn, (r.coin(1, 12) ? wellVar : !wellVar) ? "'SM3/DAY'" : "'BARSA'", "" });
+        }
+        for (auto& rec : k.recs) {
+            if (rec[0] == "DEFINE") {
+                std::vector<std::string> toks; std::istringstream is(rec[2]); std::string t; while (is >> t) toks.push_back(t);
+                try { rec[3] = UDQDefine(UDQParams{}, rec[1], 0, KeywordLocation{}, toks).input_string(); } catch (...) { rec[3] = "?"; }
+            } else if (rec[0] == "UNITS") rec[3] = rec[2].substr(1, rec[2].size() - 2);
+        }
+        return k;
+    }
+    KwIR complump(bool allowQ = false) {
+        return KwIR{ "COMPLUMP", { { wellPat(allowQ), std::to_string(r.coin(2, 3) ? 0 : r.range(1, 6)), std::to_string(r.coin(2, 3) ? 0 : r.range(1, 6)), std::to_string(r.range(0, 3)), std::to_string(r.range(0, 4)),
+                                     std::to_string(r.coin(1, 50) ? 0 : r.range(1, 3)) } }, "" };
+    }
+    KwIR wpimult(bool allowQ = false) {
+        static const std::vector<std::string> fs = { "0.5", "2", "1.5", "1", "0.75" };
+        KwIR k{ "WPIMULT", {}, "" };
+        int n = r.range(1, 2);
+        for (int i = 0; i < n; ++i) {
+            std::vector<std::string> f = { wellPat(allowQ), r.pick(fs), "*", "*", "*", "*", "*" };
+            if (r.coin()) for (int j = 2; j < 7; ++j) if (r.coin(1, 3)) f[j] = std::to_string(j < 5 ? r.range(0, 4) : r.range(0, 3));
+            k.recs.push_back(f);
+        }
+        return k;
+    }
     KwIR extra() {
         static const std::vector<std::pair<std::string, std::string>> xs = {
             { "RPTRST", "RPTRST\n BASIC=2 /\n" }, { "RPTSCHED", "RPTSCHED\n PRES SGAS /\n" }, { "TUNING", "TUNING\n 1 10 /\n/\n/\n" },
-            { "NEXTSTEP", "NEXTSTEP\n 5 /\n" }, { "DRSDT", "DRSDT\n 0.01 /\n" }, { "RPTRST", "RPTRST\n BASIC=1 /\n" } };
+            { "NUPCOL", "NUPCOL\n 4 /\n" }, { "DRSDT", "DRSDT\n 0.01 /\n" }, { "RPTRST", "RPTRST\n BASIC=1 /\n" } };
         auto& x = r.pick(xs);
         return KwIR{ x.first, {}, x.second };
     }
@@ -430,6 +579,25 @@ struct Gen {
     char actionRole = 'P';
     KwIR ordinary(bool inAction = false) {
         for (;;) {
+            if (rich2 && r.coin(2, 5)) {
+                int c = r.range(0, inAction ? 8 : 13);
+                switch (c) {
+                case 0: return complump(inAction);
+                case 1: return wpimult(inAction);
+                case 2: return wecon(inAction);
+                case 3: return wtest(inAction);
+                case 4: return wlist();
+                case 5: return gconinje();
+                case 6: return nextstep();
+                case 7: return udq();
+                case 8: if (inAction) return wpimult(true); return wconhist();
+                case 9: return wconinjh();
+                case 10: return whistctl();
+                case 11: return wconhist();
+                case 12: return wlist();
+                default: return wpimult();
+                }
+            }
             int c = r.range(0, inAction ? 8 : 13);
             switch (c) {
             case 0: return welopen(inAction);
@@ -454,7 +622,16 @@ struct Gen {
         std::string name = std::string("ACT") + actionRole + std::to_string(r.range(1, 2));
         out.push_back(KwIR{ "ACTIONX", { { name } }, "" });
         int n = r.range(1, 3);
-        for (int i = 0; i < n; ++i) out.push_back(ordinary(true));
+        for (int i = 0; i < n; ++i) {
+            if (extras && r.coin(1, 5)) {
+                const std::string w = wells.empty() ? "P1" : r.pick(wells);
+                static const std::vector<std::string> tm = { "ORAT", "WRAT", "LRAT", "BHP", "RESV" };
+                if (r.coin(2, 3)) out.push_back(KwIR{ "WTMULT", {}, "WTMULT\n '" + w + "' " + r.pick(tm) + " " + (r.coin() ? "0.5" : "1.25") + " /\n/\n" });
+                else out.push_back(KwIR{ "WELPI", {}, "WELPI\n '" + w + "' " + std::to_string(r.range(5, 40)) + " /\n/\n" });
+                continue;
+            }
+            out.push_back(ordinary(true));
+        }
         out.push_back(KwIR{ "ENDACTIO", {}, "" });
         if (std::find(actionNames.begin(), actionNames.end(), name) == actionNames.end()) actionNames.push_back(name);
     }
@@ -526,27 +703,42 @@ Real build(std::shared_ptr<Deck> deck, const EclipseState* shared_es = nullptr) 
 
 std::string uv(const UDAValue& v) { return v.is<double>() ? vh::hexF64(v.get<double>()) : std::string("-"); }
 
+const char* workoverName(WellEconProductionLimits::EconWorkover w) {
+    using W = WellEconProductionLimits::EconWorkover;
+    switch (w) { case W::NONE: return "NONE"; case W::CON: return "CON"; case W::CONP: return "+CON"; case W::WELL: return "WELL"; case W::PLUG: return "PLUG"; default: return "?"; }
+}
+
+// candidate well-list names the generator uses (WListManager has no iteration interface)
+const std::vector<std::string> LISTNAMES = { "*L1", "*L2", "*L3", "*M1" };
+
 std::string dumpState(const Schedule& sched, size_t k) {
     std::vector<std::string> parts;
     const auto& st = sched[k];
     for (const auto& wn : sched.wellNames(k)) {
         const auto& w = sched.getWell(wn, k);
         std::ostringstream o;
-        o << "W:" << wn << "," << w.groupName() << "," << static_cast<int>(w.getStatus()) << ",";
-        if (w.isProducer()) {
+        o << "W:" << wn << "," << w.groupName() << "," << static_cast<int>(w.getStatus()) << "," << (w.isProducer() ? "P" : "I") << "," << (w.predictionMode() ? 1 : 0)
+          << "," << (w.getHeadI() + 1) << "." << (w.getHeadJ() + 1) << ",";
+        {
             const auto& p = w.getProductionProperties();
-            o << "P," << static_cast<int>(p.controlMode) << "," << p.productionControls() << "," << uv(p.OilRate) << "," << uv(p.WaterRate) << "," << uv(p.GasRate)
-              << "," << uv(p.LiquidRate) << "," << uv(p.ResVRate) << "," << uv(p.BHPTarget);
-        } else {
-            const auto& i = w.getInjectionProperties();
-            o << "I," << InjectorType2String(i.injectorType) << "," << static_cast<int>(i.controlMode) << "," << i.injectionControls << "," << uv(i.surfaceInjectionRate)
-              << "," << uv(i.reservoirInjectionRate) << "," << uv(i.BHPTarget);
+            o << "P(" << static_cast<int>(p.controlMode) << "," << p.productionControls() << "," << (p.predictionMode ? 1 : 0) << "," << uv(p.OilRate) << "," << uv(p.WaterRate) << "," << uv(p.GasRate)
+              << "," << uv(p.LiquidRate) << "," << uv(p.ResVRate) << "," << uv(p.BHPTarget) << "," << vh::hexF64(p.bhp_hist_limit) << "," << (p.bhp_hist_limit_defaulted ? 1 : 0) << ","
+              << vh::hexF64(p.BHPH) << "," << static_cast<int>(p.whistctl_cmode) << "),";
         }
-        o << "," << vh::hexF64(w.getEfficiencyFactor()) << ",";
-        std::vector<std::array<int, 4>> cs;
-        for (const auto& c : w.getConnections()) cs.push_back({ c.getI(), c.getJ(), c.getK(), static_cast<int>(c.state()) });
+        {
+            const auto& i = w.getInjectionProperties();
+            o << "I(" << InjectorType2String(i.injectorType) << "," << static_cast<int>(i.controlMode) << "," << i.injectionControls << "," << (i.predictionMode ? 1 : 0) << "," << uv(i.surfaceInjectionRate)
+              << "," << uv(i.reservoirInjectionRate) << "," << uv(i.BHPTarget) << "," << vh::hexF64(i.bhp_hist_limit) << "," << vh::hexF64(i.BHPH) << "),";
+        }
+        o << vh::hexF64(w.getEfficiencyFactor()) << ",";
+        {
+            const auto& e = w.getEconLimits();
+            o << "E(" << vh::hexF64(e.minOilRate()) << "," << vh::hexF64(e.maxWaterCut()) << "," << workoverName(e.workover()) << "),";
+        }
+        std::vector<std::pair<std::array<int, 5>, std::string>> cs;
+        for (const auto& c : w.getConnections()) cs.push_back({ { c.getI(), c.getJ(), c.getK(), static_cast<int>(c.state()), c.complnum() }, vh::hexF64(c.wpimult()) });
         std::sort(cs.begin(), cs.end());
-        for (size_t i = 0; i < cs.size(); ++i) o << (i ? "/" : "") << cs[i][0] << "." << cs[i][1] << "." << cs[i][2] << "." << cs[i][3];
+        for (size_t i = 0; i < cs.size(); ++i) o << (i ? "/" : "") << cs[i].first[0] << "." << cs[i].first[1] << "." << cs[i].first[2] << "." << cs[i].first[3] << "." << cs[i].first[4] << "." << cs[i].second;
         parts.push_back(o.str());
     }
     for (const auto& gn : sched.groupNames(k)) {
@@ -558,7 +750,16 @@ std::string dumpState(const Schedule& sched, size_t k) {
         bool f = true; for (auto& c : g.groups()) { o << (f ? "" : "/") << c; f = false; }
         o << "],[";
         f = true; for (auto& c : g.wells()) { o << (f ? "" : "/") << c; f = false; }
-        o << "]";
+        o << "],J(";
+        f = true;
+        for (const auto& ph : { std::make_pair(Phase::WATER, "WATER"), std::make_pair(Phase::GAS, "GAS"), std::make_pair(Phase::OIL, "OIL") }) {
+            if (!g.hasInjectionControl(ph.first)) continue;
+            const auto& ip = g.injectionProperties(ph.first);
+            o << (f ? "" : "/") << ph.second << ":" << Group::InjectionCMode2String(ip.cmode) << ":" << ip.injection_controls << ":" << uv(ip.surface_max_rate) << ":" << uv(ip.resv_max_rate) << ":"
+              << uv(ip.target_reinj_fraction) << ":" << uv(ip.target_void_fraction) << ":" << (ip.available_group_control ? 1 : 0);
+            f = false;
+        }
+        o << ")";
         parts.push_back(o.str());
     }
     {
@@ -578,6 +779,51 @@ std::string dumpState(const Schedule& sched, size_t k) {
             if (st.wellgroup_events().has(wn) && st.wellgroup_events().hasEvent(wn, ScheduleEvents::ACTIONX_WELL_EVENT)) { o << (f ? "" : "/") << wn; f = false; }
         parts.push_back(o.str());
     }
+    {
+        std::ostringstream o; o << "L:";
+        bool f = true;
+        const auto& wlm = st.wlist_manager();
+        auto names = LISTNAMES; std::sort(names.begin(), names.end());
+        for (const auto& ln : names) {
+            if (!wlm.hasList(ln)) continue;
+            o << (f ? "" : "/") << ln << "(";
+            bool g = true; for (const auto& w : wlm.getList(ln).wells()) { o << (g ? "" : "/") << w; g = false; }
+            o << ")"; f = false;
+        }
+        parts.push_back(o.str());
+    }
+    {
+        std::ostringstream o; o << "T:";
+        bool f = true;
+        auto wn = sched.wellNames(k); std::sort(wn.begin(), wn.end());
+        const auto& wt = st.wtest_config();
+        for (const auto& w : wn) {
+            if (!wt.has(w)) continue;
+            const auto& t = wt.get(w);
+            o << (f ? "" : "/") << w << ":" << t.reasons << ":" << vh::hexF64(t.test_interval) << ":" << t.num_test << ":" << vh::hexF64(t.startup_time) << ":" << t.begin_report_step;
+            f = false;
+        }
+        parts.push_back(o.str());
+    }
+    {
+        std::ostringstream o; o << "U:";
+        bool f = true;
+        const auto& udq = st.udq();
+        for (const auto& in : udq.input()) {
+            const std::string& q = in.keyword();
+            o << (f ? "" : "/") << q << ":" << (in.index.action == UDQAction::DEFINE ? 1 : 0) << ":" << in.index.insert_index << ":" << in.index.typed_insert_index << ":"
+              << [&]() -> std::string { try { return hexOfString(udq.define(q).input_string()); } catch (...) { return "-"; } }() << ":" << (udq.has_unit(q) ? hexOfString(udq.unit(q)) : std::string("-"));
+            f = false;
+        }
+        parts.push_back(o.str());
+    }
+    {
+        std::ostringstream o; o << "N:";
+        if (st.next_tstep.has_value()) o << vh::hexF64(st.next_tstep->value()) << ":" << (st.next_tstep->every_report() ? 1 : 0);
+        else o << "-";
+        parts.push_back(o.str());
+    }
+    parts.push_back("H:" + std::to_string(static_cast<int>(st.whistctl())));
     std::string s;
     for (size_t i = 0; i < parts.size(); ++i) s += (i ? ";" : "") + parts[i];
     return s;
@@ -600,12 +846,46 @@ std::string dumpBlocks(const Deck& deck, std::time_t start) {
     }
 }
 
+// the block structure of a restarted run (types, start/end times, keyword names)
+std::string dumpBlocksR(const Deck& deck, std::time_t start, const ScheduleRestartInfo& ri) {
+    try {
+        ScheduleDeck sd(TimeService::from_time_t(start), deck, ri);
+        std::ostringstream o;
+        o << sd.size() << "|";
+        for (size_t i = 0; i < sd.size(); ++i) {
+            const auto t = sd[i].time_type();
+            o << (i ? "," : "") << (t == ScheduleTimeType::START ? "START" : t == ScheduleTimeType::DATES ? "DATES" : t == ScheduleTimeType::TSTEP ? "TSTEP" : "RESTART");
+        }
+        o << "|";
+        for (size_t i = 0; i < sd.size(); ++i) o << (i ? "," : "") << TimeService::to_time_t(sd[i].start_time());
+        o << "|";
+        for (size_t i = 0; i < sd.size(); ++i) {
+            o << (i ? "," : "");
+            if (sd[i].end_time().has_value()) o << TimeService::to_time_t(*sd[i].end_time()); else o << "-";
+        }
+        for (size_t i = 0; i < sd.size(); ++i) {
+            o << "|";
+            for (size_t j = 0; j < sd[i].size(); ++j) o << (j ? "," : "") << sd[i][j].name();
+        }
+        return o.str();
+    } catch (...) {
+        return "err";
+    }
+}
+
 std::string constsEnc() {
     const auto us = UnitSystem::newMETRIC();
-    const double bp = us.from_si(UnitSystem::measure::pressure, UnitSystem::newMETRIC().to_si(UnitSystem::measure::pressure, ParserKeywords::WCONPROD::BHP::defaultValue.get<double>()));
+    const double bpSI = UnitSystem::newMETRIC().to_si(UnitSystem::measure::pressure, ParserKeywords::WCONPROD::BHP::defaultValue.get<double>());
+    const double bp = us.from_si(UnitSystem::measure::pressure, bpSI);
     double bi = UnitSystem::newMETRIC().to_si(UnitSystem::measure::pressure, ParserKeywords::WCONINJE::BHP::defaultValue.get<double>());
     bi = us.from_si(UnitSystem::measure::pressure, bi);
-    return vh::hexF64(1.0) + ",-," + vh::hexF64(bp) + "," + vh::hexF64(bi);
+    const double siP = us.parse("Pressure").getSIScaling();
+    const double siL = us.getDimension(UnitSystem::measure::liquid_surface_rate).getSIScaling();
+    const double siT = us.getDimension(UnitSystem::measure::time).getSIScaling();
+    const double bhSI = UnitSystem::newMETRIC().to_si(UnitSystem::measure::pressure, ParserKeywords::FBHPDEF::TARGET_BHP::defaultValue);
+    const double bihSI = UnitSystem::newMETRIC().to_si(UnitSystem::measure::pressure, 6891.2);
+    return vh::hexF64(1.0) + ",-," + vh::hexF64(bp) + "," + vh::hexF64(bi) + "," + vh::hexF64(0.0) + "," + vh::hexF64(siP) + "," + vh::hexF64(siL) + "," + vh::hexF64(siT) + ","
+        + vh::hexF64(bpSI) + "," + vh::hexF64(bhSI) + "," + vh::hexF64(bihSI);
 }
 
 int tierN(const std::string& tier, int quick, int thorough) { return tier == "thorough" ? thorough : quick; }
@@ -617,7 +897,7 @@ int corr(uint64_t seed, const std::string& tier, const std::string& outdir) {
     vh::Sink sink(outdir);
     vh::Rng rng(seed);
     const std::string consts = constsEnc();
-    const int N = tierN(tier, 220, 2500);
+    const int N = tierN(tier, 360, 8000);
     for (int it = 0; it < N; ++it) {
         Gen g{ rng, false, it % 4 == 3 };
         auto ks = g.schedule(rng.range(1, it % 10 == 0 ? 12 : 6));
@@ -625,13 +905,55 @@ int corr(uint64_t seed, const std::string& tier, const std::string& outdir) {
         Deck deck;
         try { deck = parseText(deckOf(ks)); } catch (...) { sink.count("parse-failed"); continue; }
         auto dp = std::make_shared<Deck>(deck);
+        if (const char* dd = std::getenv("SCHED_DECKDIR")) { vh::spit(std::string(dd) + "/" + std::to_string(it) + ".DATA", "-- " + enc + "\n" + deckOf(ks)); std::cerr << "it=" << it << "\n"; }
         const std::string bl = dumpBlocks(deck, 1420070400);
         sink.emit("sched.blocks " + std::string(START_ENC) + " " + enc, bl);
         sink.count(bl == "err" ? "blocks-err" : "blocks-ok");
+        if (bl != "err") {
+            // restarted runs: restart at the start of a block of the full deck (sometimes off by a second), with and without SKIPREST;
+            // without SKIPREST the deck is (usually) only the part after the restart date
+            ScheduleDeck full(TimeService::from_time_t(1420070400), deck, ScheduleRestartInfo{});
+            for (int rr = 0; rr < 2 && full.size() > 1; ++rr) {
+                const size_t rs = 1 + rng.below(full.size() - 1);
+                ScheduleRestartInfo ri;
+                ri.report_step = rs;
+                ri.time = TimeService::to_time_t(full[rs].start_time()) + (rng.coin(1, 8) ? (rng.coin() ? 1 : -86400) : 0);
+                ri.skiprest = rr == 0 ? true : rng.coin(1, 3);
+                std::vector<KwIR> part = ks;
+                if (!ri.skiprest && rng.coin(4, 5)) {
+                    size_t steps = 0, i = 0;
+                    for (; i < ks.size() && steps < rs; ++i) steps += ks[i].nsteps();
+                    if (steps == rs) part.assign(ks.begin() + i, ks.end());
+                }
+                Deck pd;
+                try { pd = parseText(deckOf(part)); } catch (...) { continue; }
+                const std::string rb = dumpBlocksR(pd, 1420070400, ri);
+                sink.emit("sched.rblocks " + std::string(START_ENC) + " " + std::to_string(ri.report_step) + " " + std::to_string((long) ri.time) + " " + (ri.skiprest ? "1" : "0") + " " + encSched(part), rb);
+                sink.count(rb == "err" ? "rblocks-err" : (ri.skiprest ? "rblocks-skiprest-ok" : "rblocks-ok"));
+            }
+        }
         Real r = build(dp);
         sink.count(r.ok ? "schedule-ok" : "schedule-err");
+        if (!r.ok && std::getenv("SCHED_ERRSTAT")) {        // debugging aid: which keyword makes the schedule fail first
+            for (size_t cut = 1; cut <= ks.size(); ++cut) {
+                std::vector<KwIR> pre(ks.begin(), ks.begin() + cut);
+                bool inAct = false; for (auto& k : pre) { if (k.name == "ACTIONX") inAct = true; if (k.name == "ENDACTIO") inAct = false; }
+                if (inAct) continue;
+                Real pr; try { pr = build(std::make_shared<Deck>(parseText(deckOf(pre)))); } catch (...) {}
+                if (!pr.ok) { sink.count("err-at." + ks[cut - 1].name); break; }
+            }
+        }
         size_t n = 1; for (auto& k : ks) n += k.nsteps();
-        if (r.ok) { n = r.sched->size(); sink.count("steps", (long) n); }
+        if (r.ok) {
+            n = r.sched->size(); sink.count("steps", (long) n);
+            // what the accepted schedules exercise
+            for (size_t k = 1; k < n; ++k) for (const auto& wn : r.sched->wellNames(k - 1)) {
+                const auto& w0 = r.sched->getWell(wn, k - 1); const auto& w1 = r.sched->getWell(wn, k);
+                if (w0.isProducer() != w1.isProducer()) sink.count(w1.isProducer() ? "switch-injector-to-producer" : "switch-producer-to-injector");
+                if (w0.getHeadI() != w1.getHeadI() || w0.getHeadJ() != w1.getHeadJ()) sink.count("head-changed");
+                if (w0.getStatus() != Well::Status::SHUT && w1.getStatus() == Well::Status::SHUT && w1.getConnections().allConnectionsShut()) sink.count("auto-shut-in");
+            }
+        }
         for (auto& k : ks) sink.count("kw." + k.name);
         for (size_t k = 0; k < n; ++k)
             sink.emit("sched.obs " + std::to_string(k) + " " + consts + " " + START_ENC + " " + enc, r.ok ? dumpState(*r.sched, k) : "err");
@@ -740,15 +1062,48 @@ void compareStates(vh::PropLog& log, const std::string& key, const Schedule& a, 
     }
 }
 
-void propDeck(vh::PropLog& log, const std::string& label, std::shared_ptr<Deck> deck, std::map<std::string, long>& stats, size_t maxCuts) {
+// all shipped decks (*.DATA below the repository), sorted
+std::vector<std::string> shippedDecks(const std::string& root) {
+    std::vector<std::string> out;
+    for (const char* sub : { "tests", "python" }) {
+        std::error_code ec;
+        for (fs::recursive_directory_iterator it(root + "/" + sub, ec), end; !ec && it != end; it.increment(ec))
+            if (it->is_regular_file() && it->path().extension() == ".DATA") out.push_back(fs::relative(it->path(), root).string());
+    }
+    std::sort(out.begin(), out.end());
+    return out;
+}
+
+std::shared_ptr<Deck> parseShipped(const std::string& path) {
+    Parser parser; ParseContext pc; ErrorGuard eg;
+    pc.update(InputErrorAction::IGNORE);
+    auto deck = std::make_shared<Deck>(parser.parseFile(path, pc, eg));
+    eg.clear();
+    return deck;
+}
+
+double secondsSince(const std::chrono::steady_clock::time_point& t0) { return std::chrono::duration<double>(std::chrono::steady_clock::now() - t0).count(); }
+
+// truncation at (up to maxCuts, chosen by rng when there are more) cut points; with otherTail also one "other tail" per deck:
+// the keywords after a cut with a random half of the non-time keywords removed
+void propDeck(vh::PropLog& log, const std::string& label, std::shared_ptr<Deck> deck, std::map<std::string, long>& stats, size_t maxCuts,
+              vh::Rng* rng = nullptr, bool otherTail = false) {
     Real full;
     std::unique_ptr<EclipseState> es;
     try { es = std::make_unique<EclipseState>(*deck); } catch (...) { stats["eclipsestate-failed"]++; return; }
     full = build(deck, es.get());
     stats[full.ok ? "full-ok" : "full-err"]++;
     auto cuts = cutsOf(*deck);
-    size_t stride = cuts.size() > maxCuts ? (cuts.size() + maxCuts - 1) / maxCuts : 1;
-    for (size_t ci = 0; ci < cuts.size(); ci += stride) {
+    std::vector<size_t> chosen;
+    if (rng && cuts.size() > maxCuts) {
+        std::set<size_t> pick;
+        while (pick.size() < maxCuts) pick.insert(rng->below(cuts.size()));
+        chosen.assign(pick.begin(), pick.end());
+    } else {
+        size_t stride = cuts.size() > maxCuts ? (cuts.size() + maxCuts - 1) / maxCuts : 1;
+        for (size_t ci = 0; ci < cuts.size(); ci += stride) chosen.push_back(ci);
+    }
+    for (size_t ci : chosen) {
         auto td = std::make_shared<Deck>(*deck);
         if (cuts[ci].deckIndexAfter < td->size()) td->remove_keywords((int) cuts[ci].deckIndexAfter, (int) td->size());
         Real tr = build(td, es.get());
@@ -758,13 +1113,26 @@ void propDeck(vh::PropLog& log, const std::string& label, std::shared_ptr<Deck> 
         if (!full.ok) { stats[tr.ok ? "full-err-trunc-ok" : "full-err-trunc-err"]++; log.ok(); continue; }
         compareStates(log, key, *full.sched, *tr.sched, cuts[ci].stepsClosed - 1);
     }
+    if (otherTail && rng && full.ok && !cuts.empty()) {
+        const size_t ci = rng->below(cuts.size());
+        auto od = std::make_shared<Deck>(*deck);
+        // walk the tail backwards so that indices stay valid
+        for (size_t i = od->size(); i-- > cuts[ci].deckIndexAfter; ) {
+            const std::string& n = (*od)[i].name();
+            if (n == "DATES" || n == "TSTEP" || n == "END") continue;
+            if (rng->coin()) od->remove_keywords((int) i, (int) i + 1);
+        }
+        Real orr = build(od, es.get());
+        stats[orr.ok ? "shipped-other-tail" : "shipped-other-tail-err"]++;
+        if (orr.ok) compareStates(log, label + "#tail" + std::to_string(cuts[ci].stepsClosed), *full.sched, *orr.sched, cuts[ci].stepsClosed - 1);
+    }
 }
 
 int prop(uint64_t seed, const std::string& tier, const std::string& outdir) {
     vh::PropLog log(outdir + "/prop.txt");
     std::map<std::string, long> stats;
     vh::Rng rng(seed * 7919 + 17);
-    const int N = tierN(tier, 90, 900);
+    const int N = tierN(tier, 150, 3000);
     for (int it = 0; it < N; ++it) {
         Gen g{ rng, true, it % 3 == 0 };
         int nsteps = rng.range(2, it % 10 == 0 ? 10 : 5);
@@ -787,32 +1155,25 @@ int prop(uint64_t seed, const std::string& tier, const std::string& outdir) {
             stats["other-tail"]++;
             const long before = log.failed;
             if (a.ok && b.ok) compareStates(log, label + "#tail" + std::to_string(stepsClosed), *a.sched, *b.sched, stepsClosed - 1, false);
-            if (log.failed != before && std::getenv("SCHED_DEBUG")) { vh::spit("/tmp/sched_fail_a.DATA", deckOf(ks)); vh::spit("/tmp/sched_fail_b.DATA", deckOf(alt)); }
             else stats["other-tail-err"]++;
+            if (log.failed != before && std::getenv("SCHED_DEBUG")) { vh::spit("/tmp/sched_fail_a.DATA", deckOf(ks)); vh::spit("/tmp/sched_fail_b.DATA", deckOf(alt)); }
         }
     }
-    // shipped decks
+    // shipped decks: every *.DATA of the repository that loads offline, in a seed-dependent order, within a time box
     const char* repo = std::getenv("VERIF_REPO");
     const std::string root = repo ? repo : "/repo";
-    std::vector<std::string> shipped = { "tests/SPE1CASE1.DATA", "tests/SPE1CASE2.DATA", "tests/ACTIONX_M1.DATA", "tests/MSW.DATA", "tests/UDQ_ACTIONX.DATA", "tests/TEST_WLIST.DATA" };
-    if (tier == "thorough") {
-        for (const char* x : { "tests/2_WLIFT_MODEL5_NOINC.DATA", "tests/5_NETWORK_MODEL5_STDW_NETBAL_PACK.DATA", "tests/9_4C_WINJ_GINJ_UDQ_MSW-UDARATE_TEST_PACK.DATA",
-                               "tests/0A4_GRCTRL_LRAT_LRAT_GGR_BASE_MODEL2_MSW_ALL.DATA", "tests/ACTIONX_M1_MULTIPLE.DATA", "tests/SPE1CASE1B.DATA", "tests/MSW_2WELSEGS.DATA",
-                               "tests/TEST_NETWORK_ALL.DATA", "tests/UDQ_ACTIONX_TEST1.DATA", "tests/SUMMARY_EFF_FAC.DATA", "tests/TEST_AGGREGATE_MSW.DATA", "tests/BASE_SIM.DATA",
-                               "tests/SPE1CASE1_WELTRAJ.DATA", "tests/SOFR_TEST.DATA", "tests/MOD4_TEST_IGRP-DATA.DATA" })
-            shipped.push_back(x);
-    }
+    auto shipped = shippedDecks(root);
+    for (size_t i = shipped.size(); i > 1; --i) std::swap(shipped[i - 1], shipped[rng.below(i)]);
+    const double budget = tier == "thorough" ? 420.0 : 55.0;
+    const auto t0 = std::chrono::steady_clock::now();
     for (auto& rel : shipped) {
+        if (secondsSince(t0) > budget) { stats["shipped-skipped-time-box"]++; continue; }
         std::shared_ptr<Deck> deck;
-        try {
-            Parser parser; ParseContext pc; ErrorGuard eg;
-            pc.update(InputErrorAction::IGNORE);
-            deck = std::make_shared<Deck>(parser.parseFile(root + "/" + rel, pc, eg));
-            eg.clear();
-        } catch (...) { stats["shipped-parse-failed"]++; continue; }
+        try { deck = parseShipped(root + "/" + rel); } catch (...) { stats["shipped-parse-failed"]++; continue; }
         stats["shipped"]++;
-        propDeck(log, rel, deck, stats, tier == "thorough" ? 40 : 8);
+        propDeck(log, rel, deck, stats, tier == "thorough" ? 40 : 6, &rng, true);
     }
+    stats["shipped-seconds"] = (long) secondsSince(t0);
     std::ofstream f(outdir + "/prop_stats.json");
     f << "{\n  \"checked\": " << log.checked << ",\n  \"failed\": " << log.failed;
     for (auto& kv : stats) f << ",\n  \"" << kv.first << "\": " << kv.second;
@@ -824,6 +1185,14 @@ int prop(uint64_t seed, const std::string& tier, const std::string& outdir) {
 // C04
 
 struct App { size_t n; std::string action; std::vector<std::string> wells; };
+
+// the observation record without its marker part (M:...) — the action event marker is the allowed difference at step n
+std::string stripMarker(const std::string& x) {
+    const auto p = x.rfind(";M:");
+    if (p == std::string::npos) return x;
+    const auto q2 = x.find(";L:", p);
+    return x.substr(0, p) + (q2 == std::string::npos ? std::string() : x.substr(q2));
+}
 
 std::string encApps(const std::vector<App>& apps) {
     std::string s;
@@ -860,7 +1229,9 @@ bool applyReal(Schedule& s, const std::vector<App>& apps) {
         for (auto& a : apps) {
             const Action::ActionX act = s[a.n].actions()[a.action];      // copy: the snapshots are resized
             const auto res = Action::Result{ true }.wells(a.wells);
-            s.applyAction(a.n, act, res.matches(), std::unordered_map<std::string, double>{});
+            std::unordered_map<std::string, double> wellpi;            // the simulator's current PI of every well (needed by WELPI bodies only)
+            for (const auto& w : s.wellNames(a.n)) wellpi[w] = 1.0;
+            s.applyAction(a.n, act, res.matches(), wellpi);
         }
         return true;
     } catch (...) { return false; }
@@ -870,7 +1241,7 @@ int acorr(uint64_t seed, const std::string& tier, const std::string& outdir) {
     vh::Sink sink(outdir);
     vh::Rng rng(seed * 31 + 5);
     const std::string consts = constsEnc();
-    const int N = tierN(tier, 260, 2500);
+    const int N = tierN(tier, 420, 8000);
     for (int it = 0; it < N; ++it) {
         Gen g{ rng, false, true };
         auto ks = g.schedule(rng.range(2, 6));
@@ -883,6 +1254,13 @@ int acorr(uint64_t seed, const std::string& tier, const std::string& outdir) {
         bool nondecr = true; for (size_t i = 1; i < apps.size(); ++i) if (apps[i].n < apps[i - 1].n) nondecr = false;
         sink.count(nondecr ? "seq-nondecreasing" : "seq-with-decrease");
         sink.count("apps", (long) apps.size());
+        for (auto& a : apps) {       // applications at a step that end_report closed with an automatic shut-in (the case the first round excluded)
+            bool any = false;
+            for (const auto& wn : r.sched->wellNames(a.n)) { const auto& w = r.sched->getWell(wn, a.n); if (w.getConnections().allConnectionsShut() && !w.getConnections().empty()) any = true; }
+            if (any) sink.count("apps-at-step-with-auto-shut-in");
+        }
+        for (auto& a : apps) for (size_t i = 0; i < ks.size(); ++i) if (ks[i].name == "ACTIONX" && ks[i].recs[0][0] == a.action)
+            for (size_t j = i + 1; j < ks.size() && ks[j].name != "ENDACTIO"; ++j) sink.count("body." + ks[j].name);
         const bool ok = applyReal(*r.sched, apps);
         sink.count(ok ? "apply-ok" : "apply-err");
         const std::string enc = encSched(ks), ea = encApps(apps);
@@ -898,7 +1276,8 @@ int acorr(uint64_t seed, const std::string& tier, const std::string& outdir) {
 std::vector<KwIR> substBody(const std::vector<KwIR>& body, const std::vector<std::string>& sortedWells) {
     std::vector<KwIR> out;
     for (auto k : body) {
-        const bool wellKw = k.name == "WELOPEN" || k.name == "WCONPROD" || k.name == "WCONINJE" || k.name == "WELTARG" || k.name == "WEFAC" || k.name == "COMPDAT" || k.name == "WELSPECS";
+        const bool wellKw = k.name == "WELOPEN" || k.name == "WCONPROD" || k.name == "WCONINJE" || k.name == "WELTARG" || k.name == "WEFAC" || k.name == "COMPDAT" || k.name == "WELSPECS" ||
+                            k.name == "WECON" || k.name == "WTEST" || k.name == "COMPLUMP" || k.name == "WPIMULT";
         if (wellKw) {
             std::vector<std::vector<std::string>> recs;
             for (auto& r : k.recs) {
@@ -916,7 +1295,7 @@ int aprop(uint64_t seed, const std::string& tier, const std::string& outdir) {
     vh::PropLog log(outdir + "/prop.txt");
     std::map<std::string, long> stats;
     vh::Rng rng(seed * 131 + 3);
-    const int N = tierN(tier, 200, 2000);
+    const int N = tierN(tier, 320, 6000);
     for (int it = 0; it < N; ++it) {
         Gen g{ rng, it % 2 == 0, true };
         auto ks = g.schedule(rng.range(2, 6));
@@ -951,7 +1330,8 @@ int aprop(uint64_t seed, const std::string& tier, const std::string& outdir) {
             std::vector<std::string> sorted;
             for (const auto& w : now.sched->wellNames(a.n)) if (std::find(a.wells.begin(), a.wells.end(), w) != a.wells.end()) sorted.push_back(w);
             std::vector<KwIR> body(cur.begin() + bodyStart, cur.begin() + bodyEnd);
-            for (auto& b : body) if (b.name == "COMPDAT" || (b.name == "WELOPEN" && [&] { for (auto& r : b.recs) if (r.size() > 2) return true; return false; }())) perStep = true;
+            // the property's per-step exception: keywords that shut/open connections (automatic shut-in) and WPIMULT (accumulation)
+            for (auto& b : body) if (b.name == "COMPDAT" || b.name == "WPIMULT" || b.name == "WELPI" || (b.name == "WELOPEN" && [&] { for (auto& r : b.recs) if (r.size() > 2) return true; return false; }())) perStep = true;
             auto sb = substBody(body, sorted);
             cur.insert(cur.begin() + insertAt, sb.begin(), sb.end());
         }
@@ -960,6 +1340,8 @@ int aprop(uint64_t seed, const std::string& tier, const std::string& outdir) {
         Real inlined = build(std::make_shared<Deck>(parseText(deckOf(cur))));
         stats[okA ? "apply-ok" : "apply-err"]++;
         stats[perStep ? "with-connection-keywords" : "admissible-body"]++;
+        for (auto& a : apps) for (size_t i = 0; i < ks.size(); ++i) if (ks[i].name == "ACTIONX" && ks[i].recs[0][0] == a.action)
+            for (size_t j = i + 1; j < ks.size() && ks[j].name != "ENDACTIO"; ++j) stats["body." + ks[j].name]++;
         const std::string key = "act" + std::to_string(seed) + "." + std::to_string(it);
         if (okA != inlined.ok) {
             if (perStep) { stats["perstep-outcome-differs"]++; continue; }
@@ -974,7 +1356,7 @@ int aprop(uint64_t seed, const std::string& tier, const std::string& outdir) {
         for (size_t k = 0; k < A.size(); ++k) {
             std::string da = dumpState(A, k), db = dumpState(B, k);
             // strip the marker line (M:...) — the action event marker is the allowed difference
-            auto strip = [](std::string s) { auto p = s.rfind(";M:"); return p == std::string::npos ? s : s.substr(0, p); };
+            auto strip = stripMarker;
             if (k < first) {
                 // the past: untouched, compared against the schedule before any application
                 std::string d0 = dumpState(*base.sched, k);
@@ -989,6 +1371,81 @@ int aprop(uint64_t seed, const std::string& tier, const std::string& outdir) {
             if (strip(da) != strip(db)) { log.fail(key, "state " + std::to_string(k) + " differs from inlined deck: " + firstDiff(strip(da), strip(db)) + " apps=" + encApps(apps)); break; }
             log.ok();
         }
+    }
+    // shipped decks with ACTIONX: real applyAction vs the Deck with the action's keywords inserted verbatim at the end of block n
+    {
+        const char* repo = std::getenv("VERIF_REPO");
+        const std::string root = repo ? repo : "/repo";
+        auto shipped = shippedDecks(root);
+        for (size_t i = shipped.size(); i > 1; --i) std::swap(shipped[i - 1], shipped[rng.below(i)]);
+        const double budget = tier == "thorough" ? 300.0 : 45.0;
+        const auto t0 = std::chrono::steady_clock::now();
+        static const std::set<std::string> comparable = { "WELOPEN", "WCONPROD", "WCONINJE", "WELTARG", "WEFAC", "GCONPROD", "GCONINJE", "GRUPTREE", "WTMULT", "WECON", "WTEST",
+                                                          "WLIST", "NEXTSTEP", "NEXT", "UDQ", "COMPLUMP", "GLIFTOPT", "WGRUPCON", "GRUPTARG", "GCONSUMP" };
+        for (auto& rel : shipped) {
+            if (secondsSince(t0) > budget) { stats["shipped-skipped-time-box"]++; continue; }
+            std::shared_ptr<Deck> deck;
+            std::unique_ptr<EclipseState> es;
+            try { deck = parseShipped(root + "/" + rel); es = std::make_unique<EclipseState>(*deck); } catch (...) { continue; }
+            Real base = build(deck, es.get());
+            if (!base.ok) continue;
+            std::vector<std::pair<size_t, std::string>> cands;
+            for (size_t n = 0; n < base.sched->size(); ++n) for (const auto& act : (*base.sched)[n].actions()) cands.push_back({ n, act.name() });
+            if (cands.empty()) continue;
+            stats["shipped-with-actions"]++;
+            const auto cuts = cutsOf(*deck);
+            const int tries = tier == "thorough" ? 12 : 4;
+            for (int t = 0; t < tries; ++t) {
+                const auto c = cands[rng.below(cands.size())];
+                const size_t n = c.first;
+                const Action::ActionX act = (*base.sched)[n].actions()[c.second];
+                // position of the end of block n in the deck
+                long insertAt = -1; size_t before = 0;
+                for (auto& cu : cuts) { if (before == n) { insertAt = (long) cu.deckIndexAfter - 1; break; } if (cu.stepsClosed > n) break; before = cu.stepsClosed; }
+                if (insertAt < 0 && before == n) insertAt = (long) deck->size();
+                if (insertAt < 0) { stats["shipped-inline-not-expressible"]++; continue; }
+                bool hasQ = false, perStep = false;
+                for (const auto& kw : act) {
+                    if (!comparable.count(kw.name())) perStep = true;
+                    for (const auto& rec : kw) {
+                        if (rec.size() > 0 && rec.getItem(0).getType() == type_tag::string && rec.getItem(0).hasValue(0) && rec.getItem(0).getTrimmedString(0) == "?") hasQ = true;
+                        if (kw.name() == "WELOPEN") for (size_t i = 2; i < rec.size(); ++i) if (!rec.getItem(i).defaultApplied(0)) perStep = true;
+                    }
+                }
+                App app{ n, c.second, {} };
+                if (!hasQ) for (const auto& w : base.sched->wellNames(n)) if (rng.coin(1, 3)) app.wells.push_back(w);   // '?' bodies: no matching wells, so verbatim inlining is exact
+                Real applied = build(deck, es.get());
+                const bool okA = applyReal(*applied.sched, { app });
+                auto id = std::make_shared<Deck>(*deck);
+                if ((size_t) insertAt < id->size()) id->remove_keywords((int) insertAt, (int) id->size());
+                for (const auto& kw : act) id->addKeyword(kw);
+                for (size_t i = (size_t) insertAt; i < deck->size(); ++i) id->addKeyword((*deck)[i]);
+                Real inlined = build(id, es.get());
+                stats[okA ? "shipped-apply-ok" : "shipped-apply-err"]++;
+                stats[perStep ? "shipped-per-step-body" : "shipped-admissible-body"]++;
+                const std::string key = rel + "#" + c.second + "@" + std::to_string(n);
+                if (okA != inlined.ok) {
+                    if (perStep) { stats["shipped-perstep-outcome-differs"]++; continue; }
+                    log.fail(key, std::string("applyAction ") + (okA ? "succeeds" : "throws") + " but the inlined deck " + (inlined.ok ? "is accepted" : "throws"));
+                    continue;
+                }
+                if (!okA) { log.ok(); continue; }
+                const Schedule& A = *applied.sched; const Schedule& B = *inlined.sched;
+                if (A.size() != B.size()) { log.fail(key, "sizes differ"); continue; }
+                auto strip = stripMarker;
+                for (size_t k = 0; k < A.size(); ++k) {
+                    const std::string da = dumpState(A, k), db = dumpState(B, k);
+                    if (k < n) {
+                        if (!(A[k] == (*base.sched)[k]) || da != dumpState(*base.sched, k)) { log.fail(key, "state " + std::to_string(k) + " before the action step changed"); break; }
+                        log.ok(); continue;
+                    }
+                    if (perStep) { if (strip(da) != strip(db)) stats["shipped-perstep-state-differs"]++; continue; }
+                    if (strip(da) != strip(db) || !wellsGroupsEquivalent(A, B, k)) { log.fail(key, "state " + std::to_string(k) + " differs from inlined deck: " + firstDiff(strip(da), strip(db))); break; }
+                    log.ok();
+                }
+            }
+        }
+        stats["shipped-seconds"] = (long) secondsSince(t0);
     }
     // ACTIONX with WELPI (run-time productivity-index scaling): states before the action step must stay
     {
@@ -1040,6 +1497,26 @@ int main(int argc, char** argv) {
         std::cout << dumpBlocks(*deck, 1420070400) << "\n";
         if (!r.ok) { std::cout << "err\n"; return 0; }
         for (size_t k = 0; k < r.sched->size(); ++k) std::cout << k << " " << dumpState(*r.sched, k) << "\n";
+        return 0;
+    }
+    if (argc >= 3 && std::string(argv[1]) == "probe") {     // load time / size of a shipped deck
+        for (int i = 2; i < argc; ++i) {
+            const auto t0 = std::chrono::steady_clock::now();
+            std::string res = "parse-failed"; size_t steps = 0, nact = 0;
+            try {
+                Parser parser; ParseContext pc; ErrorGuard eg;
+                pc.update(InputErrorAction::IGNORE);
+                auto deck = std::make_shared<Deck>(parser.parseFile(argv[i], pc, eg));
+                eg.clear();
+                res = "es-failed";
+                EclipseState es(*deck);
+                res = "sched-failed";
+                Real r = build(deck, &es);
+                if (r.ok) { res = "ok"; steps = r.sched->size(); for (size_t k = 0; k < steps; ++k) nact = std::max(nact, (*r.sched)[k].actions().ecl_size()); }
+            } catch (...) {}
+            const double dt = std::chrono::duration<double>(std::chrono::steady_clock::now() - t0).count();
+            std::cout << argv[i] << " " << res << " steps=" << steps << " actions=" << nact << " t=" << dt << "\n";
+        }
         return 0;
     }
     if (argc >= 3 && std::string(argv[1]) == "gen") {       // print a generated deck + encoding
